@@ -267,7 +267,10 @@ def main():
         stats.outcome = "harness_error"
         stats.violation = {"message": str(e), "case": last_fail.get("harness_case")}
     except BaseException as e:  # noqa: B902  - anything else is a bug in the machinery
-        if last_fail.get("case") is not None and isinstance(e.__context__, Violation):
+        flaky = type(e).__name__ in ("Flaky", "FlakyFailure", "FlakyReplay")
+        if last_fail.get("case") is not None and (isinstance(e.__context__, Violation) or flaky):
+            # a violation that does not reproduce identically when Hypothesis replays it (e.g. uninitialised memory in a
+            # result) is still a violation of the case that was observed failing
             stats.outcome = "violation"
             stats.violation = {"case": last_fail.get("case"), "violation": last_fail.get("violation")}
         else:
